@@ -29,8 +29,8 @@ RULE = ("cases: method x unicode path (segments without '?', '#', control charac
         "and values incl. reserved characters, empties, ints) x <= 90 headers (token names, latin-1 values) x body as raw "
         "bytes / JSON data / form fields (urlencoded or multipart), with or without explicit Content-Length, optionally after "
         "1-2 earlier requests on the same persistent connection (one Requestant re-armed per message, as the server does), "
-        "optionally built a 2nd / 3rd time by the same Requester from what it remembers (rebuild() with only the body "
-        "arguments given again). non-trivial = "
+        "optionally built a 2nd / 3rd time by the same Requester from what it remembers (rebuild() with the body "
+        "arguments given again and, optionally, a new method / path / query dict / header list - empty ones included). non-trivial = "
         "non-ASCII path, or a reserved character (&=+#%?;/ or blank) or non-ASCII in a query key, or >= 10 headers; distinct "
         "= canonical hash of the spec")
 ASSUMPTIONS = ["the path argument is URL path syntax: it starts with a single '/', has no '?', '#', control characters or "
@@ -75,9 +75,33 @@ def run_case(spec):
     # arguments, headers); only the body arguments, which reinit() documents as reset, are given again
     reuse = spec.get("reuse") or 0
     earlier = b""
-    for _ in range(reuse):
+    changes = spec.get("changes") or {}
+    for k_ in range(reuse):
         earlier += msg
-        msg = reqr.rebuild(**{k: kw[k] for k in ("body", "data", "fargs") if k in kw})
+        rk = {k: kw[k] for k in ("body", "data", "fargs") if k in kw}
+        if k_ == reuse - 1:
+            # the last rebuild may give some of the remembered parts again - also as EMPTY values, which are values
+            if changes.get("method") is not None and not spec.get("explicit_cl"):
+                # (an explicit Content-Length header the caller gave earlier stays remembered: changing to or from a
+                # body-less method under it would be the caller's inconsistency, not judged)
+                rk["method"] = changes["method"]
+            if changes.get("path") is not None:
+                rk["path"] = changes["path"]
+            if changes.get("qargs") is not None:
+                rk["qargs"] = dict(changes["qargs"])
+            if changes.get("headers") is not None and bodykind != "multipart" and not spec.get("explicit_cl"):
+                rk["headers"] = [tuple(h) for h in changes["headers"]]
+        msg = reqr.rebuild(**rk)
+        if k_ == reuse - 1:
+            spec = dict(spec)
+            for key in ("method", "path", "qargs"):
+                if key in rk:
+                    spec[key] = changes[key]
+            if "headers" in rk:
+                spec["headers"] = changes["headers"]
+                hdrs = [list(h) for h in changes["headers"]]
+            if any(key in rk for key in ("method", "path", "qargs", "headers")):
+                r.labels.append("rebuilt-with-changed-parts")
     head = reqr.head
     sent_body = msg[len(head):]
     # earlier requests on the same (persistent) connection: the server reuses one Requestant per connection, so
@@ -235,6 +259,13 @@ def spec_strategy():
         "explicit_cl": st.booleans(),
         "prev": st.one_of(st.just([]), st.just([]), st.lists(prev_request(), min_size=1, max_size=2)),
         "reuse": st.sampled_from([0, 0, 1, 2]),
+        "changes": st.one_of(st.none(), st.fixed_dictionaries({
+            "method": st.one_of(st.none(), st.sampled_from(httpgen.METHODS)),
+            "path": st.one_of(st.none(), st.none(), path_strategy()),
+            "qargs": st.one_of(st.none(), st.just([]), st.just([]), qargs_strategy()),
+            "headers": st.one_of(st.none(), st.none(), st.just([]), st.lists(
+                st.tuples(httpgen.header_name().filter(lambda n: n.lower() not in RESERVED_HDR), httpgen.header_value()).map(list),
+                max_size=4, unique_by=lambda h: h[0].lower()))})),
     })
 
 
